@@ -40,7 +40,7 @@ func init() {
 			"plus missing/malformed bounds; distinct = shape hash (layout, placement, n, target, bound kind, offset class, forms, outcome); non-trivial = the SP took a decision",
 		Directed:   c05Directed,
 		Run:        c05Run,
-		MustHit:    []string{"delay_to_bound", "offset=0", "offset=+1ns", "offset=-1ns", "kind=sc-nooa", "kind=cond-nb", "kind=cond-nooa", "bad_bound", "skewed_clock", "non_utc_location"},
+		MustHit:    []string{"delay_to_bound", "offset=0", "offset=+1ns", "offset=-1ns", "kind=sc-nooa", "kind=cond-nb", "kind=cond-nooa", "bad_bound", "skewed_clock", "non_utc_location", "redelivery_after_expiry"},
 		RandomRuns: map[string]int{"quick": 8000, "thorough": 60000},
 		Assumptions: []string{
 			"RFC 3339 grey areas (leap seconds, lower-case t/z, hour 24) are not generated",
@@ -109,6 +109,7 @@ func c05Run(r *core.Run) {
 	skewSel := t.Int(3, "c05.skewsel")
 
 	s := NewStd(r)
+	s.DrawLive()
 	switch skewSel {
 	case 1:
 		s.Cfg.Loc = locPool[1+t.Int(len(locPool)-1, "c05.loc")]
@@ -285,6 +286,25 @@ func c05Run(r *core.Run) {
 		}
 		r.Fail("sc-expiry", sig, obs("now", now.Format(time.RFC3339Nano), "err", fmt.Sprint(out.Err), "sc", deref(m.Assertions[target].SCNotOnOrAfter)))
 		return
+	}
+	// redelivery: the very same payload reaches the same SP again once the clock has passed the
+	// earliest subject-confirmation bound; it must now be rejected as expired
+	if t.Int(4, "c05.redeliver") == 1 {
+		first := bs[0].sc
+		for i := range bs {
+			if bs[i].sc.Before(first) {
+				first = bs[i].sc
+			}
+		}
+		r.Sim.SetNow(first.Add(time.Duration(t.Int(3, "c05.redeliver.off")) * time.Second).Add(-s.Cfg.Skew))
+		r.Fault("redelivery_after_expiry")
+		_, out2 := s.Node.Retrieve(enc)
+		r.Steps++
+		r.Logf("sp retrieve (redelivery at %s) -> %s %s", s.Node.Now().UTC().Format(time.RFC3339Nano), out2.Class(), world.ErrClass(out2.Err))
+		if out2.Panic == "" && (out2.OK() || !isExpiredErr(out2.Err)) {
+			r.Fail("sc-expiry", "C05/redelivery-after-expiry-not-rejected-as-expired", obs("first_now", now.Format(time.RFC3339Nano), "second_now", s.Node.Now().Format(time.RFC3339Nano), "earliest_sc_not_on_or_after", first.Format(time.RFC3339Nano), "err", fmt.Sprint(out2.Err)))
+			return
+		}
 	}
 	wantInvalid := now.Before(bs[0].nb) || !now.Before(bs[0].cnooa)
 	got := ai.WarningInfo != nil && ai.WarningInfo.InvalidTime
